@@ -154,7 +154,9 @@ def delta_enc(vals, bits=64, block=128, nmini=4, junk_widths=None, varint_pad=0,
         blk = deltas[s:s + block]
         md = min(blk) if min_choice is None else min_choice(blk)
         out += uleb_enc(zigzag_enc(md & M64), varint_pad)
-        adj = [(d - md) & mask for d in blk] if min_choice is None else [(d - md) & M64 for d in blk]
+        adj = [d - md for d in blk]
+        if any(x < 0 or x > M64 for x in adj):
+            raise SpecError("min delta choice does not fit")
         widths = []
         body = bytearray()
         for m in range(nmini):
